@@ -110,9 +110,11 @@ def double_spin_rule(ctx, r2) -> None:
         v = last.value
         okc = False
         how = ""
-        if isinstance(v, ast.Call) and call_name(v) in ("np.repeat", "numpy.repeat"):
+        if (isinstance(v, ast.Call) and call_name(v) in ("np.repeat", "numpy.repeat")) or isinstance(v, ast.Subscript):
             offs, src, how = doubled_from(S, v, S.cfg.node(last), 1)
-            okc = offs == {(0,), (1,)} and src is not None and src.split(".copy()")[0].split(".astype(")[0] == "self.wannier_centers_cart"
+            src0 = src.split(".copy()")[0].split(".astype(")[0] if src is not None else None
+            okc = offs == {(0,), (1,)} and src0 is not None and (src0 == "self.wannier_centers_cart" or src0.startswith(("np.array(self.wannier_centers_cart", "np.asarray(self.wannier_centers_cart",
+                                                                                                                           "np.copy(self.wannier_centers_cart")))
         else:
             st_ = stride_stores(S, "self.wannier_centers_cart")
             offs = {o for _, o, _ in st_}
@@ -123,6 +125,15 @@ def double_spin_rule(ctx, r2) -> None:
                  f"the centres are doubled as: {how}: not every original centre appears at offsets 0 and 1 (interlaced)")
     pc = [c for c in method_calls(ds.node, "set_spin_pairs") if c.args]
     okp = False
+    if not pc and any(norm(c_.func) == "self.set_spin_interlaced" and not c_.args for c_ in ast.walk(ds.node) if isinstance(c_, ast.Call)):
+        # the pairs are registered by the sibling method written for exactly this layout: judge its list instead
+        si = idx.function(SR, "System_R.set_spin_interlaced")
+        S = Sem(idx, si)
+        pc = [c for c in method_calls(si.node, "set_spin_pairs") if c.args]
+    if len(pc) == 1 and isinstance(pc[0].args[0], ast.Name):
+        d_pairs = S.du.single_def(pc[0].args[0].id, S.du.node_of_expr(pc[0]))
+        if d_pairs is not None and d_pairs.kind == "assign" and isinstance(d_pairs.value, (ast.ListComp, ast.GeneratorExp)):
+            pc[0].args[0] = d_pairs.value
     if len(pc) == 1 and isinstance(pc[0].args[0], (ast.ListComp, ast.GeneratorExp)) and len(pc[0].args[0].generators) == 1:
         lc = pc[0].args[0]
         g = lc.generators[0]
@@ -136,13 +147,17 @@ def double_spin_rule(ctx, r2) -> None:
                     if x.id == v_:
                         return Rat.sym("v")
                     r_ = S.rnorm(x, at)
+                    if r_.replace(" ", "") in ("self.num_wann//2", "int(self.num_wann/2)") and S.fi is not None and S.fi.name == "set_spin_interlaced":
+                        return Rat.sym("N")       # in the sibling method num_wann is already the doubled count
                     return Rat.sym("N") if r_ == "self.num_wann" else Rat.sym(r_) if r_ == x.id else None
                 if norm(x) == "self.num_wann":
                     return Rat.sym("N")
                 return None
             try:
                 a_, b_ = to_rat(lc.elt.elts[0], env), to_rat(lc.elt.elts[1], env)
-                ra = [to_rat(S.resolve(x, at), env) for x in g.iter.args]
+                half_ = S.fi is not None and S.fi.name == "set_spin_interlaced"
+                ra = [Rat.sym("N") if half_ and S.rnorm(x, at).replace(" ", "") in ("self.num_wann//2", "int(self.num_wann/2)") else to_rat(S.resolve(x, at), env)
+                      for x in g.iter.args]
                 two, one, zero, N, vv = Rat.const(2), Rat.const(1), Rat.const(0), Rat.sym("N"), Rat.sym("v")
                 form1 = len(ra) == 1 and ra[0].equals(N) and a_.equals(two * vv) and b_.equals(two * vv + one)
                 form2 = len(ra) == 3 and ra[0].equals(zero) and ra[1].equals(two * N) and ra[2].equals(two) and a_.equals(vv) and b_.equals(vv + one)
